@@ -1,6 +1,7 @@
 package main
 
 import (
+	"time"
 	"fmt"
 	"strconv"
 	"strings"
@@ -202,6 +203,34 @@ func runTokCCase(c *Ctx, kind string, opts int, ops []cfgOp, input []rune, note 
 	})
 	if orc != "" {
 		c.fail(Failure{Kind: "oracle", Op: op, Impl: implLine(ts, st), Note: orc})
+	}
+	// configuration after use: the same operations applied in two stages with tokenizing and state queries in
+	// between must leave the tokenizer as a fresh one configured in one go
+	if len(ops) >= 2 {
+		var staged []tk
+		st2 := safeCallT(5*time.Second, func() string {
+			t := newTokenizer(kind).(cfgTokzr)
+			setOpts(t, opts)
+			h := len(ops) / 2
+			for _, o := range ops[:h] {
+				applyCfgOp(t, o)
+			}
+			t.TokenizeBuffer(string(input))
+			for i := len(input) - 1; i >= 0; i-- {
+				t.GetCharacterState(input[i])
+			}
+			for _, o := range ops[h:] {
+				applyCfgOp(t, o)
+				if len(input) > 0 {
+					t.GetCharacterState(input[0])
+				}
+			}
+			staged = conv(t.TokenizeBuffer(string(input)))
+			return ""
+		})
+		if st2 == "" && showTks(staged) != showTks(ts) {
+			c.fail(Failure{Kind: "oracle", Op: op, Impl: showTks(staged), Spec: showTks(ts), Note: "a tokenizer configured in two stages (used in between) gives " + showTks(staged) + ", configured in one go " + showTks(ts)})
+		}
 	}
 	if opts&(1|2|4|16|64) == 0 {
 		if msg := oracleLossless(input, withEof(ts, opts)); msg != "" {
